@@ -9,6 +9,7 @@ exceptions by type name, unknown objects by type name only (never a false alarm 
 The harness never uses `==` on library objects and never keeps a returned array without canonising it first.
 """
 import hashlib
+import marshal
 
 import numpy as np
 
@@ -138,9 +139,14 @@ def canon(x, _depth=0):
 
 
 def digest(tree) -> str:
-    h = hashlib.sha1()
-    _feed(h, tree)
-    return h.hexdigest()[:16]
+    """Structural digest of a canonical tree.  marshal version 2 has no object references, so two structurally equal trees
+    serialise identically whatever objects they are built from (pickle would not: it memoises by identity)."""
+    try:
+        return hashlib.sha1(marshal.dumps(tree, 2)).hexdigest()[:16]
+    except ValueError:
+        h = hashlib.sha1()
+        _feed(h, tree)
+        return h.hexdigest()[:16]
 
 
 def _feed(h, t):
